@@ -6,7 +6,7 @@ Import ListNotations.
 From GA.Base Require Import Bytes Align Dec.
 From GA.Gen Require Import Alpha.
 From GA.Model Require Import Sites.
-From GA.Proofs Require Import SitesProofs.
+From GA.Proofs Require Import SitesProofs RefCoordProofs.
 Local Open Scope Z_scope.
 
 (* SubAlign succeeds exactly on windows inside the alignment (boundary values
@@ -128,15 +128,26 @@ Theorem C04_refcoordinates_small :
 Proof. exact refcoordinates_small. Qed.
 Print Assumptions C04_refcoordinates_small.
 
-(* The same clause for every row (unbounded): not proved for the model in this revision; every
-   generated case is checked against it by Corr/C04.v spec_ok (bounded validation). *)
-Definition C04_refcoordinates_statement : Prop :=
+(* The same clause for EVERY row and every window of its ungapped residues (unbounded, by induction over
+   the row through the two phases of the loop): the alignment window returned holds exactly the requested
+   residues and starts and ends on a residue - hence it is the smallest such window *)
+Theorem C04_refcoordinates :
   forall rs name s l st ln ref,
   get_seq name rs = Some ref -> 0 <= s -> 0 < l -> s + l <= Z.of_nat (length (ungapb ref)) ->
   ref_coordinates rs name s l = Some (st, ln, false) ->
   ungapb (firstn (Z.to_nat ln) (skipn (Z.to_nat st) ref)) =
     firstn (Z.to_nat l) (skipn (Z.to_nat s) (ungapb ref)) /\
   nth (Z.to_nat st) ref x2d <> x2d /\ nth (Z.to_nat (st + ln - 1)) ref x2d <> x2d.
+Proof. exact refcoordinates_window. Qed.
+Print Assumptions C04_refcoordinates.
+
+(* a window reaching beyond the ungapped reference is reported as an error *)
+Theorem C04_refcoordinates_outside_is_error :
+  forall rs name s l ref,
+  get_seq name rs = Some ref -> 0 <= s -> 0 < l -> s + l > Z.of_nat (length (ungapb ref)) ->
+  exists st ln, ref_coordinates rs name s l = Some (st, ln, true).
+Proof. exact refcoordinates_outside_is_error. Qed.
+Print Assumptions C04_refcoordinates_outside_is_error.
 
 (* cutting an alignment in two at any column and concatenating the parts gives it back *)
 Theorem C04_prefix_suffix :
